@@ -104,6 +104,143 @@ pub fn part_histories(tier: Tier) -> Part {
     part
 }
 
+/// The shape of what the adapter wrote while one request was handled: kinds only (no seq, no ids).
+fn wire_shape(o: &Value) -> Vec<String> {
+    o["wire"]
+        .as_array()
+        .cloned()
+        .unwrap_or_default()
+        .iter()
+        .filter_map(|m| match m["type"].as_str() {
+            Some("response") => Some(format!("response:{}:{}", m["command"].as_str().unwrap_or("?"), m["success"])),
+            Some("event") => {
+                let e = m["event"].as_str().unwrap_or("?");
+                // debuggee output is forwarded by other threads: its position is not fixed; breakpoint
+                // events depend on the records the adapter keeps from the first lifecycle (a
+                // replaced record is announced as removed): not lifecycle events
+                if e == "output" || e == "module" || e == "loadedSource" || e == "process" || e == "breakpoint" {
+                    None
+                } else if e == "stopped" {
+                    Some(format!("event:stopped:{}", m["body"]["reason"].as_str().unwrap_or("?")))
+                } else if e == "thread" {
+                    Some(format!("event:thread:{}", m["body"]["reason"].as_str().unwrap_or("?")))
+                } else {
+                    Some(format!("event:{e}"))
+                }
+            }
+            _ => None,
+        })
+        .collect()
+}
+
+/// Second lifecycle on one connection ("start from non-initial states"): a first debuggee is run to
+/// its end, then one (thorough: two) arbitrary request(s) of the alphabet, then a complete second
+/// lifecycle.  The protocol monitor runs over the whole wire, and the second lifecycle must look
+/// exactly like the same requests on a fresh connection.
+pub fn part_second_lifecycle(tier: Tier) -> Part {
+    let mut part = Part::new("dap-second-lifecycle");
+    part.rule = "one connection, two debuggees: a first lifecycle (run to the exit after a breakpoint stop; thorough also: run to the exit without any stop; `terminate` and `disconnect` end the connection) is followed by every request symbol of the alphabet (thorough: every ordered pair) and then by a complete second lifecycle [launch, setFunctionBreakpoints, configurationDone, continue]; the protocol monitor M1-M11 checks every message of the whole connection, and the messages of the second lifecycle (responses and lifecycle events, by kind) must be exactly those the same four requests produce on a fresh connection: nothing of the first debuggee may leak into the second".into();
+    let ps = match progs(vec![vec![Stmt::While(3), Stmt::CallF]]) {
+        Ok(p) => p,
+        Err(e) => {
+            part.violate("C12:machinery:corpus", e, json!({}));
+            part.exhaustive = false;
+            return part;
+        }
+    };
+    let cfg = DapCfg { prop: "C12", depth: 0, alphabet: c12_alphabet(), wall: wall_cap(tier, 45, 1200), c13: false };
+    let deadline = Instant::now() + cfg.wall;
+    let oracle = oracle_for("C12");
+    let life = vec![Sym::Launch, Sym::SetFnBps(vec![0]), Sym::ConfigurationDone, Sym::Continue];
+    let firsts: Vec<(&str, Vec<Sym>)> = vec![
+        ("exit-after-stop", life.clone()),
+        ("exit-without-stop", vec![Sym::Launch, Sym::ConfigurationDone]),
+
+    ];
+    // quick tier: the richer first lifecycle only
+    let firsts: Vec<(&str, Vec<Sym>)> = if tier == Tier::Quick { firsts.into_iter().take(1).collect() } else { firsts };
+    let between: Vec<Sym> = cfg.alphabet.iter().filter(|s| !matches!(s, Sym::Disconnect(_) | Sym::Terminate)).cloned().collect();
+    for p in &ps {
+        let cx = ctx_for(p);
+        // reference: the lifecycle on a fresh connection
+        let fresh = drive(&cx, &cfg, &life, &*oracle);
+        let fresh_shape: Vec<Vec<String>> = fresh.obs.iter().map(wire_shape).collect();
+        if fresh.error.is_some() || !fresh.model.terminated || fresh_shape.len() != life.len() {
+            part.violate("C12:machinery:second-lifecycle-reference", format!("[{}] the reference lifecycle did not run to its end: {:?} {fresh_shape:?}", p.name(), fresh.error), json!({}));
+            part.exhaustive = false;
+            continue;
+        }
+        part.sample(json!({"reference_lifecycle": fresh_shape}));
+        let mut jobs: Vec<(String, Vec<Sym>, usize)> = vec![];
+        for (fname, first) in &firsts {
+            jobs.push((format!("{fname} + nothing"), first.clone(), first.len()));
+            for x in &between {
+                let mut path = first.clone();
+                path.push(x.clone());
+                jobs.push((format!("{fname} + {}", x.label()), path, first.len() + 1));
+                if tier == Tier::Thorough {
+                    for y in &between {
+                        let mut path = first.clone();
+                        path.push(x.clone());
+                        path.push(y.clone());
+                        jobs.push((format!("{fname} + {} + {}", x.label(), y.label()), path, first.len() + 2));
+                    }
+                }
+            }
+        }
+        let capped = std::sync::atomic::AtomicBool::new(false);
+        let results: Vec<(String, Vec<Sym>, usize, Option<Driven>)> = {
+            use rayon::prelude::*;
+            let pool = rayon::ThreadPoolBuilder::new().num_threads(8).build().unwrap();
+            pool.install(|| {
+                jobs.into_par_iter()
+                    .map(|(name, mut path, at)| {
+                        if Instant::now() > deadline {
+                            capped.store(true, std::sync::atomic::Ordering::Relaxed);
+                            return (name, path, at, None);
+                        }
+                        path.extend(life.iter().cloned());
+                        let d = drive(&cx, &cfg, &path, &*oracle);
+                        (name, path, at, Some(d))
+                    })
+                    .collect()
+            })
+        };
+        let mut outcomes: std::collections::BTreeSet<String> = Default::default();
+        for (name, path, at, d) in results {
+            let Some(d) = d else { continue };
+            let replay = json!({"engine":"dap","prop":"C12","exe":cx.p.built.exe,"lines":cx.lines,"fns":cx.fns,"insns":cx.insns,"path":path,"history":path.iter().map(|a| a.label()).collect::<Vec<_>>()});
+            part.states += 1;
+            part.transitions += path.len() as u64;
+            part.evaluations += 1;
+            if let Some(e) = &d.error {
+                part.violate("C12:second-lifecycle:connection-broke", format!("[{}] {name}: {e}", p.name()), replay);
+                continue;
+            }
+            for f in &d.findings {
+                part.violate(f.sig.clone(), f.detail.clone(), replay.clone());
+            }
+            // a restart / launch in between starts a lifecycle of its own: then the last four requests are a third one; still a fresh lifecycle
+            let second: Vec<Vec<String>> = d.obs[at..].iter().map(wire_shape).collect();
+            outcomes.insert(format!("{second:?}"));
+            if second != fresh_shape {
+                let k = (0..second.len().min(fresh_shape.len())).find(|i| second[*i] != fresh_shape[*i]).unwrap_or(0);
+                part.violate(format!("C12:second-lifecycle:differs-from-a-fresh-one:{}", life[k.min(life.len() - 1)].label()), format!("[{}] {name}: while `{}` of the second lifecycle was handled the adapter wrote {:?}; on a fresh connection {:?}", p.name(), life[k.min(life.len() - 1)].label(), second.get(k), fresh_shape.get(k)), replay.clone());
+            } else {
+                part.distinct_nontrivial += 1;
+            }
+        }
+        part.distinct_outcomes += outcomes.len() as u64;
+        if capped.load(std::sync::atomic::Ordering::Relaxed) {
+            part.exhaustive = false;
+            part.caps_hit.push("wall cap hit".into());
+        }
+    }
+    part.bounds = json!({"first_lifecycles": firsts.len(), "requests_between": between.len(), "pairs": tier == Tier::Thorough, "wall_cap_s": cfg.wall.as_secs()});
+    part.traces_validated = part.states;
+    part
+}
+
 // ------------------------------------------------------------------------------------------ C13
 
 /// Expected behaviour of the latest breakpoint sets, from the reference trace.
@@ -162,7 +299,7 @@ fn c13_oracle(cx: &DapCtx, before: &DModel, after: &mut DModel, sym: &Sym, obs: 
         locs.push((cx.insns[*k as usize], after.insn_opt.map(|o| (200u8, o))));
     }
     // whether hit counters start again with a restarted process is not specified by the property
-    let has_hit_opts = after.line_bps.values().any(|o| matches!(o, BpOpt::Hit2 | BpOpt::HitGe2)) || matches!(after.insn_opt, Some(BpOpt::Hit2 | BpOpt::HitGe2));
+    let has_hit_opts = after.line_bps.values().any(|o| matches!(o, BpOpt::Hit2 | BpOpt::HitGe2 | BpOpt::LogHit2)) || matches!(after.insn_opt, Some(BpOpt::Hit2 | BpOpt::HitGe2 | BpOpt::LogHit2));
     if matches!(sym, Sym::Restart) && has_hit_opts {
         after.hits.clear();
         after.hits_unknown = true;
@@ -193,6 +330,13 @@ fn c13_oracle(cx: &DapCtx, before: &DModel, after: &mut DModel, sym: &Sym, obs: 
                 logs_expected += 1;
                 false
             }
+            Some(BpOpt::LogHit2) => {
+                if *n == 2 {
+                    logs_expected += 1;
+                }
+                false
+            }
+            Some(BpOpt::LogCondFalse) => false,
         };
         if stop {
             expect = Some(j);
@@ -273,7 +417,14 @@ pub fn part_c13(tier: Tier) -> Part {
     let mut alphabet = vec![Sym::Initialize, Sym::Launch, Sym::ConfigurationDone, Sym::Continue, Sym::Restart];
     // setBreakpoints: subsets of two lines x options on the first line
     alphabet.push(Sym::SetBps(vec![]));
-    for o in [BpOpt::Plain, BpOpt::CondTrue, BpOpt::CondFalse, BpOpt::CondI2, BpOpt::Hit2, BpOpt::HitGe2, BpOpt::Log] {
+    // the quick tier keeps one representative per mechanism (condition, hit counter, logpoint,
+    // logpoint with a hit counter); the thorough tier has all nine
+    let line_opts: Vec<BpOpt> = if tier == Tier::Quick {
+        vec![BpOpt::Plain, BpOpt::CondFalse, BpOpt::CondI2, BpOpt::Hit2, BpOpt::Log, BpOpt::LogHit2]
+    } else {
+        vec![BpOpt::Plain, BpOpt::CondTrue, BpOpt::CondFalse, BpOpt::CondI2, BpOpt::Hit2, BpOpt::HitGe2, BpOpt::Log, BpOpt::LogHit2, BpOpt::LogCondFalse]
+    };
+    for o in line_opts {
         alphabet.push(Sym::SetBps(vec![(0, o)]));
     }
     alphabet.push(Sym::SetBps(vec![(1, BpOpt::Plain)]));
@@ -282,12 +433,13 @@ pub fn part_c13(tier: Tier) -> Part {
     alphabet.push(Sym::SetFnBps(vec![0]));
     alphabet.push(Sym::SetInsnBps(vec![]));
     alphabet.push(Sym::SetInsnBps(vec![0]));
-    for o in [BpOpt::CondFalse, BpOpt::Hit2, BpOpt::Log] {
+    let insn_opts: Vec<BpOpt> = if tier == Tier::Quick { vec![BpOpt::Hit2, BpOpt::Log] } else { vec![BpOpt::CondFalse, BpOpt::Hit2, BpOpt::Log, BpOpt::LogHit2] };
+    for o in insn_opts {
         alphabet.push(Sym::SetInsnBpOpt(o));
     }
     let cfg = DapCfg { prop: "C13", depth: if tier == Tier::Quick { 5 } else { 7 }, alphabet, wall: wall_cap(tier, 50, 3000), c13: true };
     part.bounds = json!({"symbols": cfg.alphabet.len(), "depth": cfg.depth, "wall_cap_s": cfg.wall.as_secs()});
-    part.rule = "explicit-state search over histories of initialize/launch/configurationDone/continue/restart interleaved with setBreakpoints (subsets of 2 lines x 7 option kinds), setFunctionBreakpoints and setInstructionBreakpoints, each set-request tried before launch, before configurationDone, while stopped and after restart; after every resume the stop reported on the wire and the pc read from /proc must be the next arrival of the reference trace at a location of the LATEST sets, filtered by condition / hitCondition / logMessage semantics evaluated on the reference execution".into();
+    part.rule = "explicit-state search over histories of initialize/launch/configurationDone/continue/restart interleaved with setBreakpoints (subsets of 2 lines x 6 (quick) / 9 option kinds: none, condition true / false / on the loop counter, hitCondition 2 / >= 2, logMessage, logMessage + hitCondition, logMessage + false condition), setFunctionBreakpoints and setInstructionBreakpoints, each set-request tried before launch, before configurationDone, while stopped and after restart; after every resume the stop reported on the wire and the pc read from /proc must be the next arrival of the reference trace at a location of the LATEST sets, filtered by condition / hitCondition / logMessage semantics evaluated on the reference execution".into();
     let bodies = match tier {
         Tier::Quick => vec![vec![Stmt::While(3), Stmt::CallF]],
         Tier::Thorough => vec![vec![Stmt::While(3), Stmt::CallF], vec![Stmt::CallG, Stmt::While(3)], vec![Stmt::Rec(3), Stmt::While(2)]],
